@@ -621,7 +621,7 @@ func inParseFloat(g *G, fn *ssa.Function, args []Value) Value {
 		pdot := c.And(c.Eq(a, c.BV(8, '.')), isDigit(b))
 		ok = c.Or(c.Or(c.Or(dd, pd), c.Or(md, dp)), pdot)
 		ddv := c.FFromSBV(c.Add(c.Mul(c.Zext(c.Sub(a, c.BV(8, '0')), 64), c.BV(64, 10)), c.Zext(c.Sub(b, c.BV(8, '0')), 64)))
-		val = c.Ite(dd, ddv, c.Ite(pd, digitVal(b), c.Ite(md, c.FNeg(digitVal(b)), c.Ite(dp, digitVal(a), c.FDiv(digitVal(b), c.FPConst(10))))))
+		val = c.Ite(dd, ddv, c.Ite(pd, digitVal(b), c.Ite(md, c.FNeg(digitVal(b)), c.Ite(dp, digitVal(a), c.Ite(pdot, c.FDiv(digitVal(b), c.FPConst(10)), c.FPConst(0))))))
 	default:
 		ok = c.UF(fmt.Sprintf("pf_ok_%d", len(bs)), SBool, 0, bs)
 		val = c.UF(fmt.Sprintf("pf_val_%d", len(bs)), SFP, 0, bs)
@@ -865,6 +865,10 @@ func inTimeNow(g *G, fn *ssa.Function, args []Value) Value {
 	k := m.timeCtr
 	m.timeCtr++
 	var sec, nsec *Term
+	if m.cfg.Params["fixednow"] == "1" {
+		// concrete clock: successive instants one millisecond apart
+		return m.mkTime(g, c.BV(64, uint64(1700000000)), c.BV(32, uint64(k*1000000)))
+	}
 	if m.cfg.FixedVector != nil {
 		sec = m.newVar("int", "now.sec", SBV, 64)
 		nsec = m.newVar("int", "now.nsec", SBV, 32)
